@@ -118,9 +118,15 @@ pub fn check_registration(es: &[Entry]) -> Vec<Violation> {
 pub fn check(t: &mut Tape, es: &[Entry]) -> Out {
     thread_local! {
         static COLL: cucumber::step::Collection<ZW> = ZW::collection();
+        // what a cloned runner / `Cucumber` dispatches through
+        static COLL_CLONE: cucumber::step::Collection<ZW> = ZW::collection().clone();
         static RES: Vec<regex::Regex> = super::zoo::entries().iter().map(|e| regex::Regex::new(e.re).unwrap()).collect();
     }
-    COLL.with(|coll| RES.with(|res| check_with(t, es, coll, res)))
+    if t.chance(1, 3) {
+        COLL_CLONE.with(|coll| RES.with(|res| check_with(t, es, coll, res)))
+    } else {
+        COLL.with(|coll| RES.with(|res| check_with(t, es, coll, res)))
+    }
 }
 
 fn check_with(t: &mut Tape, es: &[Entry], coll: &cucumber::step::Collection<ZW>, res: &[regex::Regex]) -> Out {
@@ -238,6 +244,7 @@ pub fn check_macro_step_errors(t: &mut Tape, prefix: &str) -> (Vec<Violation>, V
     };
     let conc = [Some(1), Some(2), None][t.pick(3)];
     let r = runner::Basic::<ZW>::default().steps(ZW::collection()).max_concurrent_scenarios(conc);
+    let r = if conc.is_some_and(|c| c % 2 == 0) { r.clone() } else { r };
     let items: Vec<cucumber::parser::Result<gherkin::Feature>> = vec![Ok(feature)];
     let res = std::panic::catch_unwind(std::panic::AssertUnwindSafe(|| block_on(r.run(futures::stream::iter(items), runner::basic::Cli::default()).collect::<Vec<_>>())));
     crate::lab::driver::install_probe_hook();
